@@ -25,7 +25,10 @@ CLAIM = dict(
           "state (no restriction on leaves) and for any optional / multiple spacing the lexer can still cut (C03_precedence_tokens, "
           "C03_precedence_any_spacing); the same with postfix chains, array literals and plain calls as leaves — index by name, text or any braced "
           "expression, 之 / 的 property access, in any length and mixture: chains bind tighter than every operator and associate to the "
-          "left (C03_chains_every_tree, C03_chains_tokens); more fuel never changes an answer (C03_fuel_monotone). C03_complete: every tree the executable model of the "
+          "left (C03_chains_every_tree, C03_chains_tokens); WHOLE PROGRAMS of expression statements, 输出, 令, 每当 and 如果 / 再如 / 否则 with "
+          "blocks nested to any depth, printed one statement per line with four spaces per level, compile to exactly the prescribed tree, "
+          "line table and indentation type — statement nesting from indentation, dedents closing several blocks, 再如 / 否则 attaching to the "
+          "如果 of their own indentation (C03_statements_every_program, token level C03_block_tokens); more fuel never changes an answer (C03_fuel_monotone). C03_complete: every tree the executable model of the "
           "front end (pkg/syntax lexer driver + pkg/syntax/zh parser: token buffer with stmtCompleteFlag, tryConsume, "
           "meetStmtLineBreak, blockIndent, all Parse* productions, with the repairs fixes/C03-1..4, C05-1, C05-3, C13-1) returns is "
           "complete - every construct has all parts the grammar requires - for ALL sources and fuel values, by induction over "
@@ -37,8 +40,8 @@ CLAIM = dict(
           "corruptions and truncations must be rejected or yield a complete tree, never hang or panic; and the model's "
           "outcome (tree + line table, or error code + cursor) must equal the implementation's on these inputs."),
     note=TB + ("proved: completeness of every returned tree (all inputs); the round trip compile(print e) = e for operator expressions under "
-               "every spacing. NOT proved, covered by the correspondence run only: the round trip for statements, method calls (以…（…）), 其-rooted chains, dictionary literals "
-               "and program sections, comma / bracket-line-break / comment invariance as theorems. "
+               "every spacing. NOT proved, covered by the correspondence run only: the round trip for the other statement kinds (遍历, definitions, 抛出, 导入 …), method calls (以…（…）), 其-rooted chains, "
+               "dictionary literals, program sections and layouts other than the canonical one (TAB indentation, CR / CRLF, blank lines, comments), comma / bracket-line-break / comment invariance as theorems. "
                "The token recognisers are the C04 model (vendored as model/LexerTok.v), string literals the C13 model."),
     technique="Coq proof (induction over fuel and productions) + model/implementation correspondence by vm_compute + differential generation",
     design="5/C03")
